@@ -19,10 +19,11 @@ TRACE_JAVA = "-Xss1g -Dtlc2.tool.queue.IStateQueue=StateDeque"
 def run(tier, replay=None):
     ck = Check("C03", tier)
     binp = build_harness()
-    cfgs = ["MC_C03_pairs_q.cfg", "MC_C03_triples_small.cfg", "MC_C03_masks.cfg"]
+    extra = ["MC_C03_two_nodes.cfg", "MC_C03_two_edges.cfg", "MC_C03_two_atts.cfg", "MC_C03_two_ports.cfg", "MC_C03_two_ticks.cfg", "MC_C03_two_ticks_ap.cfg"]
+    cfgs = ["MC_C03_pairs_q.cfg", "MC_C03_triples_small.cfg", "MC_C03_masks.cfg"] + extra
     if tier == "thorough":
         cfgs = ["MC_C03_pairs.cfg", "MC_C03_triples_small.cfg", "MC_C03_masks.cfg", "MC_C03_triples.cfg",
-                "MC_C03_triples_edge.cfg", "MC_C03_quads.cfg"]
+                "MC_C03_triples_edge.cfg", "MC_C03_quads.cfg"] + extra
     total = with_rej = 0
     if replay:
         obj = json.load(open(replay))["case"]
